@@ -33,7 +33,7 @@ Definition totalise (f : tok -> option tok) (t : tok) : tok :=
 (* ---- AddNilCheck ---- *)
 
 (* semantic class of a checker's matcher, recognised by the translator from the matcher's condition *)
-Inductive cls := ClsNil | ClsLenZero | ClsLenLen | ClsLenPos | ClsLenNonneg | ClsLenMinus | ClsUnknown.
+Inductive cls := ClsNil | ClsLenZero | ClsLenLen | ClsLenPos | ClsLenNonneg | ClsLenMinus | ClsBoolConst | ClsUnknown.
 Inductive subj := SubjFirst | SubjFirstLenArg | SubjBothLenArgs | SubjNone.
 
 Record checker := { ck_op : tok; ck_true : bool; ck_false : bool; ck_cls : cls; ck_subj : subj }.
@@ -46,7 +46,7 @@ Record loop_if := {
 
 (* operands of the comparison as the matchers see them *)
 Inductive okind :=
-  | ONilLit                (* the literal nil *)
+  | ONilLit                (* the literal nil, or nil converted to the very type of the other operand (isNilComparand) *)
   | OZeroLit               (* a constant 0 *)
   | OPosInt                (* an integer that is >= 1 ("likely positive int": assumed) *)
   | OPtr                   (* a pointer-like expression; value 0 means nil *)
@@ -92,6 +92,7 @@ Definition matches (c : cls) (x y : operand) : bool :=
   | ClsLenPos => is_kind OLen x && is_kind OPosInt y
   | ClsLenNonneg => is_kind OLen x && (is_kind OZeroLit y || is_kind OPosInt y)
   | ClsLenMinus => is_kind (OLenMinus 1) x && is_kind OZeroLit y
+  | ClsBoolConst => false      (* its operands are not atoms: see the expression layer below *)
   | ClsUnknown => false
   end.
 
@@ -121,3 +122,87 @@ Section Apply.
     : option (bool * bool * operand) :=
     first_some (fun ck => first_some (fun li => run_if li ck binop x y) loop) cks.
 End Apply.
+
+(* ---- the expression layer: AddNilCheck applied to nested conditions ----
+   A check may itself be compared with a boolean constant (`(p != nil) == true`) or negated; the matcher of class
+   ClsBoolConst and the prologue of AddNilCheck call AddNilCheck again on the operand.  `check` transcribes that
+   recursion; on a comparison of two atoms it is `apply_checkers`. *)
+Inductive expr :=
+  | EOp (x : operand)
+  | EBool (b : bool)                 (* a boolean constant (boolConstant: by the type checker, hence also a named constant) *)
+  | ENot (e : expr)
+  | ECmp (o : tok) (a b : expr).
+
+Definition b2z (b : bool) : Z := if b then 1 else 0.
+
+Fixpoint ev (e : expr) : Z :=
+  match e with
+  | EOp x => o_val x
+  | EBool b => b2z b
+  | ENot e' => b2z (negb (ev e' =? 1))
+  | ECmp o a b => b2z (eval o (ev a) (ev b))
+  end.
+
+Definition res := option (bool * bool * operand).
+Definition swap_res (r : res) : res :=
+  match r with Some (t, f, s) => Some (f, t, s) | None => None end.
+
+(* all that the matchers can tell about an operand: an atom of some kind, a boolean constant, or anything else --
+   for which the only thing that matters is what AddNilCheck says about it *)
+Inductive shape := ShAtom (k : okind) | ShBool (v : bool) | ShCond (r : res).
+
+Definition shape_of (e : expr) (r : res) : shape :=
+  match e with EOp x => ShAtom (o_kind x) | EBool v => ShBool v | _ => ShCond r end.
+
+(* what the matchers of the atomic classes see of an operand that is not an atom: nothing they recognise *)
+Definition oper (sh : shape) (v : Z) : operand :=
+  match sh with ShAtom k => {| o_kind := k; o_val := v |} | _ => {| o_kind := OOther; o_val := v |} end.
+
+Section Check.
+  Variables conv inv : tok -> tok.
+  Variable not_swaps : bool.
+  Variable loop : list loop_if.
+  Variable cks : list checker.
+
+  (* one matcher on (a, b) *)
+  Definition matcher (ck : checker) (a : shape) (va : Z) (b : shape) (vb : Z) : res :=
+    match ck_cls ck with
+    | ClsBoolConst =>
+        match b with
+        | ShBool v => let ra := match a with ShCond r => r | _ => None end in if v then ra else swap_res ra
+        | _ => None
+        end
+    | c => if matches c (oper a va) (oper b vb) then Some (ck_true ck, ck_false ck, oper a va) else None
+    end.
+
+  Definition run_if_e (li : loop_if) (ck : checker) (binop : tok) (x : shape) (vx : Z) (y : shape) (vy : Z) : res :=
+    let o := ck_op ck in
+    if tok_eqb binop (li_c1 li conv inv o) || tok_eqb binop (li_c2 li conv inv o) then
+      let '(a, va, b, vb) := if li_swapargs li then (y, vy, x, vx) else (x, vx, y, vy) in
+      match matcher ck a va b vb with
+      | Some (t, f, s) => if tok_eqb binop (li_swapwhen li conv inv o) then Some (f, t, s) else Some (t, f, s)
+      | None => None
+      end
+    else None.
+
+  Definition run_flat (binop : tok) (x : shape) (vx : Z) (y : shape) (vy : Z) : res :=
+    first_some (fun ck => first_some (fun li => run_if_e li ck binop x vx y vy) loop) cks.
+
+  Fixpoint check (e : expr) : res :=
+    match e with
+    | ENot e' => if not_swaps then swap_res (check e') else None
+    | ECmp binop a b => run_flat binop (shape_of a (check a)) (ev a) (shape_of b (check b)) (ev b)
+    | _ => None
+    end.
+End Check.
+
+(* well-formed: every atom satisfies what its kind promises; operands of a negation are conditions (0/1) *)
+Definition is_cond (e : expr) : bool :=
+  match e with EBool _ | ENot _ | ECmp _ _ _ => true | EOp _ => false end.
+Fixpoint wf_expr (e : expr) : Prop :=
+  match e with
+  | EOp x => operand_ok x
+  | EBool _ => True
+  | ENot e' => wf_expr e'
+  | ECmp _ a b => wf_expr a /\ wf_expr b
+  end.
